@@ -135,9 +135,13 @@ def materialise(case):
     fresh = build_two_level(r, arg) if kind == "two" else build(r, tuple(arg))
     if fresh is None:
         return None
-    for k in ("swap", "cited", "recipe"):
+    for k in ("swap", "cited", "recipe", "twice"):
         if k in case:
             fresh[k] = case[k]
+    if case.get("twice") and fresh.get("mods"):
+        # a module listed twice (the same object, as in a pooled parts list): it is one module
+        import copy
+        fresh["mods"] = fresh["mods"] + [copy.deepcopy(fresh["mods"][0])]
     return fresh
 
 
@@ -270,6 +274,8 @@ def check_two_level(ctx, case):
         order = list(cas)
         if case.get("swap"):
             order.reverse()
+        if case.get("twice"):
+            order.append(order[0])          # the same cassette object listed twice: one module
         try:
             dev = dv.assemble(*order)
         except Exception as e:  # noqa
@@ -301,7 +307,8 @@ def run(ctx):
             if build_two_level(random.Random(rs), kit) is None:
                 ctx.note("two-level-build-failed:" + kit)
                 continue
-            ctx.guard(check_case, {"recipe": ["two", kit, rs], "swap": rng.random() < 0.5, "cited": rng.random() < 0.4})
+            ctx.guard(check_case, {"recipe": ["two", kit, rs], "swap": rng.random() < 0.5, "cited": rng.random() < 0.4,
+                                   "twice": rng.random() < 0.25})
             made += 1
             if made >= ctx.budget(40, 1500):
                 break
@@ -314,7 +321,7 @@ def run(ctx):
             if build(random.Random(rs), triple) is None:
                 ctx.note("build-failed:" + triple[0])
                 continue
-            ctx.guard(check_case, {"recipe": ["one", list(triple), rs]})
+            ctx.guard(check_case, {"recipe": ["one", list(triple), rs], "twice": rng.random() < 0.25})
             made += 1
             if made >= per:
                 break
